@@ -69,6 +69,7 @@ type qb struct {
 	star   bool
 	order  bool // the query orders its rows completely
 	nalias int
+	nested bool // prefer function bodies with nested first operands (class fn-nested)
 }
 
 func (b *qb) push(t tok) {
@@ -385,7 +386,198 @@ func (g *gen) col(b *qb, qual, c string) {
 	b.id(c)
 }
 
+// ---- function-body FROM whose first operand contains nested calls / parentheses (class fn-nested)
+
+// nestedOperand wraps a VARCHAR column in 1..3 nested calls or parenthesised subexpressions.
+func (g *gen) nestedOperand(b *qb, qual, c string) {
+	depth := 1 + b.r.Intn(3)
+	var closers []func()
+	for i := 0; i < depth; i++ {
+		switch b.r.Intn(5) {
+		case 0:
+			b.kw(vh.Pick(b.r, []string{"UPPER", "LOWER"}))
+			b.ogap()
+			b.p("(")
+			closers = append(closers, func() { b.p(")") })
+		case 1:
+			b.p("(")
+			closers = append(closers, func() { b.p(")") })
+		case 2:
+			b.kw("CONCAT")
+			b.p("(")
+			closers = append(closers, func() { b.comma(); b.str(vh.Pick(b.r, []string{"x", "", "h"})); b.p(")") })
+		case 3:
+			b.kw("COALESCE")
+			b.p("(")
+			closers = append(closers, func() { b.comma(); b.str("h9"); b.ogap(); b.p(")") })
+		case 4:
+			b.kw("REPLACE")
+			b.p("(")
+			closers = append(closers, func() { b.comma(); b.str("h"); b.comma(); b.str("H"); b.p(")") })
+		}
+		b.ogap()
+	}
+	g.col(b, qual, c)
+	for i := len(closers) - 1; i >= 0; i-- {
+		b.ogap()
+		closers[i]()
+	}
+}
+
+// identOperand: what follows the body's FROM: identifier, qualified identifier, parenthesised or a nested call.
+func (g *gen) identOperand(b *qb, qual, c string) {
+	switch b.r.Intn(5) {
+	case 0, 1:
+		g.col(b, qual, c)
+	case 2:
+		b.kw("ABS")
+		b.p("(")
+		g.col(b, qual, c)
+		b.p(")")
+	case 3:
+		b.kw("COALESCE")
+		b.p("(")
+		g.col(b, qual, c)
+		b.comma()
+		b.num(1)
+		b.p(")")
+	case 4:
+		b.p("(")
+		g.col(b, qual, c)
+		b.p(")")
+	}
+}
+
+func boolInt(x bool) int {
+	if x {
+		return 1
+	}
+	return 0
+}
+
+// nestedFnFrom emits a VARCHAR expression; base = the source has `time`.
+func (g *gen) nestedFnFrom(b *qb, qual string, base bool) {
+	b.feats["fn-nested"] = true
+	b.feats["fn-from"] = true
+	n := 4
+	if base {
+		n = 5
+	}
+	switch b.r.Intn(n) {
+	case 0, 1: // SUBSTRING(<nested host> FROM <ident> [FOR k])
+		b.kw("SUBSTRING")
+		b.ogap()
+		b.p("(")
+		b.ogap()
+		g.nestedOperand(b, qual, "host")
+		b.gap()
+		b.kw("FROM")
+		b.gap()
+		g.identOperand(b, qual, "cnt")
+		if b.r.Bool() {
+			b.gap()
+			b.kw("FOR")
+			b.gap()
+			b.num(1 + b.r.Intn(3))
+		}
+		b.ogap()
+		b.p(")")
+	case 2: // TRIM(LEADING <nested literal> FROM <host | nested host>)
+		b.kw("TRIM")
+		b.ogap()
+		b.p("(")
+		b.kw(vh.Pick(b.r, []string{"LEADING", "TRAILING", "BOTH"}))
+		b.gap()
+		b.kw(vh.Pick(b.r, []string{"LOWER", "UPPER"}))
+		b.p("(")
+		if b.r.Bool() {
+			b.kw("CONCAT")
+			b.p("(")
+			b.str("H")
+			b.comma()
+			b.str("")
+			b.p(")")
+		} else {
+			b.str("H")
+		}
+		b.p(")")
+		b.gap()
+		b.kw("FROM")
+		b.gap()
+		if b.r.Bool() {
+			g.col(b, qual, "host")
+		} else {
+			b.kw("LOWER")
+			b.p("(")
+			g.col(b, qual, "host")
+			b.p(")")
+		}
+		b.ogap()
+		b.p(")")
+	case 3: // OVERLAY(<nested host> PLACING 'x' FROM <ident> [FOR 1])
+		b.kw("OVERLAY")
+		b.ogap()
+		b.p("(")
+		g.nestedOperand(b, qual, "host")
+		b.gap()
+		b.kw("PLACING")
+		b.gap()
+		b.str("x")
+		b.gap()
+		b.kw("FROM")
+		b.gap()
+		g.identOperand(b, qual, "cnt")
+		if b.r.Bool() {
+			b.gap()
+			b.kw("FOR")
+			b.gap()
+			b.num(1)
+		}
+		b.p(")")
+	case 4: // SUBSTRING(CAST(EXTRACT(year FROM time) AS VARCHAR) FROM <ident>): a body nested in a body
+		b.kw("SUBSTRING")
+		b.p("(")
+		b.kw("CAST")
+		b.p("(")
+		b.kw("EXTRACT")
+		b.ogap()
+		b.p("(")
+		b.kw(vh.Pick(b.r, []string{"year", "doy", "hour"}))
+		b.gap()
+		b.kw("FROM")
+		b.gap()
+		g.col(b, qual, "time")
+		b.p(")")
+		b.gap()
+		b.kw("AS")
+		b.gap()
+		b.kw("VARCHAR")
+		b.p(")")
+		b.gap()
+		b.kw("FROM")
+		b.gap()
+		g.identOperand(b, qual, "cnt")
+		b.p(")")
+	}
+}
+
 func (g *gen) simpleCond(b *qb, qual string, base bool) {
+	if b.r.Chance(10) || b.nested && b.r.Chance(60) {
+		g.nestedFnFrom(b, qual, base)
+		b.gap()
+		if b.r.Bool() {
+			b.kw("IS NOT NULL")
+		} else {
+			b.kw("NOT IN")
+			b.gap()
+			b.p("(")
+			b.str("zz")
+			b.comma()
+			b.str("H1")
+			b.p(")")
+		}
+		return
+	}
 	n := 7
 	if base {
 		n = 11
@@ -606,6 +798,14 @@ var joinKinds = []string{"JOIN", "INNER JOIN", "LEFT JOIN", "LEFT OUTER JOIN", "
 
 // projItem emits one projection expression over source s.
 func (g *gen) projItem(b *qb, s source, i int) {
+	if b.r.Chance(10) || b.nested && b.r.Chance(60) {
+		g.nestedFnFrom(b, s.alias, s.base)
+		b.gap()
+		b.kw("AS")
+		b.gap()
+		b.id(fmt.Sprintf("e%d", i))
+		return
+	}
 	n := 6
 	if s.base {
 		n = 9
@@ -707,6 +907,7 @@ func (g *gen) query(r *vh.Rand, hazard string) *qb {
 		return g.soup(b)
 	}
 	b.hazard = ""
+	b.nested = hazard == "fn-nested"
 	if b.r.Chance(8) {
 		b.ws(b.rawWS())
 	}
@@ -1593,6 +1794,10 @@ var corpus = []corpusStmt{
 	{"fastpath-cr", "SELECT rid, cnt FROM \r\ncpu ORDER BY rid", []string{"cpu"}, nil, true, []string{"prod"}},
 	{"with-newline", "WITH\nrecent AS (SELECT rid, host FROM mem WHERE host <> 'x')\nSELECT rid FROM recent ORDER BY rid", []string{"mem"}, []string{"recent"}, true, []string{"prod"}},
 	{"tablefunc", "SELECT g FROM range(1, 3) t(g) ORDER BY g", nil, nil, true, []string{"prod"}},
+	// benign class fn-nested: must agree on the unchanged tree (regression corpus for the frame stack of the FROM mask)
+	{"fn-nested", "SELECT rid, SUBSTRING(UPPER(host) FROM cnt) AS e FROM cpu ORDER BY rid", []string{"cpu"}, nil, true, []string{"", "prod"}},
+	{"fn-nested", "SELECT a.rid, TRIM(LEADING LOWER('H') FROM a.host) AS e FROM mem a WHERE SUBSTRING(CONCAT(a.host, (a.region)) FROM a.cnt FOR 3) IS NOT NULL ORDER BY a.rid", []string{"mem"}, nil, true, []string{"", "prod"}},
+	{"fn-nested", "SELECT rid FROM disk WHERE rid IN (SELECT rid FROM disk WHERE SUBSTRING(CAST(EXTRACT(year FROM time) AS VARCHAR) FROM ABS(cnt)) IS NOT NULL) ORDER BY rid", []string{"disk", "disk"}, nil, true, []string{"", "prod"}},
 }
 
 func (cs corpusStmt) build() *qb {
